@@ -9,6 +9,8 @@
 #include <nano/tensor/algorithm.h>
 #include <nano/tensor/integral.h>
 #include <nano/tensor/stack.h>
+#include <functional>
+#include <optional>
 #include <type_traits>
 #include <utility>
 
@@ -878,6 +880,430 @@ std::string op_integralx_io(const std::string& ity, const std::string& oty, cons
 }
 
 // aslice / asub / areshape / wsub / wslice for one element type of the owner
+// ---- histories of operations on owners + views of the three storages ---------------------------------------------
+// `tensor hist <rank> <ty> <K> <n> <op>…`: 3K slots — [0,K) owning tensors, [K,2K) mutable maps, [2K,3K) constant maps —
+// all default-constructed; every op is one call of the real constructors / operator= / resize / slice / reshape /
+// map_tensor; `q o mode` prints slot o (dims, where it points, its elements).
+template <class tscalar, size_t trank>
+struct hist_t
+{
+    using mem_t  = tensor_mem_t<tscalar, trank>;
+    using map_t  = tensor_map_t<tscalar, trank>;
+    using cmap_t = tensor_cmap_t<tscalar, trank>;
+
+    int64_t                            K;
+    std::vector<std::optional<mem_t>>  O;
+    std::vector<std::optional<map_t>>  M;
+    std::vector<std::optional<cmap_t>> C;
+
+    explicit hist_t(int64_t k)
+        : K(k)
+        , O(static_cast<size_t>(k))
+        , M(static_cast<size_t>(k))
+        , C(static_cast<size_t>(k))
+    {
+        for (auto& o : O) o.emplace();
+        for (auto& m : M) m.emplace();
+        for (auto& c : C) c.emplace();
+    }
+
+    int kind(int64_t i) const
+    {
+        if (i < 0 || i >= 3 * K) throw bad_op("slot");
+        return static_cast<int>(i / K);
+    }
+
+    size_t at(int64_t i) const { return static_cast<size_t>(i % K); }
+
+    // f(object of slot s), by kind
+    template <class tfun>
+    void with(int64_t s, const tfun& f)
+    {
+        switch (kind(s))
+        {
+        case 0: f(*O[at(s)]); break;
+        case 1: f(*M[at(s)]); break;
+        default: f(*C[at(s)]); break;
+        }
+    }
+
+    // objs[o].emplace(view): the view is a temporary map / constant map
+    template <class tview>
+    void emplace_view(int64_t o, const tview& view)
+    {
+        switch (kind(o))
+        {
+        case 0: O[at(o)].emplace(view); break;
+        case 1:
+            if constexpr (std::is_same_v<tview, map_t>)
+            {
+                const map_t tmp = view;
+                M[at(o)].emplace(tmp);
+            }
+            else
+            {
+                throw bad_op("mutable map of constant data");
+            }
+            break;
+        default:
+        {
+            const cmap_t tmp{view};
+            C[at(o)].emplace(tmp);
+            break;
+        }
+        }
+    }
+
+    void ctor(int64_t o, int64_t s, bool move)
+    {
+        const int ko = kind(o), ks = kind(s);
+        if (ko == 0)
+        {
+            if (ks == 0)
+            {
+                if (o == s) throw bad_op("self construction");
+                if (move) O[at(o)].emplace(std::move(*O[at(s)]));
+                else O[at(o)].emplace(std::as_const(*O[at(s)]));
+            }
+            else if (ks == 1)
+            {
+                if (move) O[at(o)].emplace(std::move(*M[at(s)]));
+                else O[at(o)].emplace(*M[at(s)]);
+            }
+            else
+            {
+                if (move) O[at(o)].emplace(std::move(*C[at(s)]));
+                else O[at(o)].emplace(*C[at(s)]);
+            }
+        }
+        else if (ko == 1)
+        {
+            if (ks == 0) M[at(o)].emplace(*O[at(s)]);
+            else if (ks == 1)
+            {
+                map_t tmp = *M[at(s)];
+                if (move) M[at(o)].emplace(std::move(tmp));
+                else M[at(o)].emplace(tmp);
+            }
+            else throw bad_op("mutable map of constant data");
+        }
+        else
+        {
+            if (ks == 0) C[at(o)].emplace(std::as_const(*O[at(s)]));
+            else if (ks == 1)
+            {
+                const map_t tmp = *M[at(s)];
+                C[at(o)].emplace(tmp);
+            }
+            else
+            {
+                cmap_t tmp = *C[at(s)];
+                if (move) C[at(o)].emplace(std::move(tmp));
+                else C[at(o)].emplace(tmp);
+            }
+        }
+    }
+
+    void assign(int64_t o, int64_t s, bool move)
+    {
+        const int ko = kind(o), ks = kind(s);
+        if (ko == 0)
+        {
+            auto& dst = *O[at(o)];
+            if (ks == 0)
+            {
+                if (move) dst = std::move(*O[at(s)]);
+                else dst = std::as_const(*O[at(s)]);
+            }
+            else if (ks == 1)
+            {
+                if (move) dst = std::move(*M[at(s)]);
+                else dst = *M[at(s)];
+            }
+            else
+            {
+                if (move) dst = std::move(*C[at(s)]);
+                else dst = *C[at(s)];
+            }
+        }
+        else if (ko == 1)
+        {
+            auto& dst = *M[at(o)];
+            if (ks == 0) dst = std::as_const(*O[at(s)]);
+            else if (ks == 1)
+            {
+                if (move) dst = std::move(*M[at(s)]);
+                else dst = std::as_const(*M[at(s)]);
+            }
+            else dst = *C[at(s)];
+        }
+        else
+        {
+            if (ks == 2 && move) *C[at(o)] = std::move(*C[at(s)]);
+            else throw bad_op("assignment to a constant map");
+        }
+    }
+
+    template <class ttensor>
+    void print(out_t& out, const ttensor& t, int64_t mode, bool owner)
+    {
+        out << static_cast<long long>(trank);
+        for (const auto d : t.dims()) out << d;
+        if (mode != 2)
+        {
+            if (owner) out << (t.data() == nullptr ? "n" : "p");
+            else if (t.size() == 0) out << "z";
+            else if (t.data() == nullptr) out << "n";
+            else
+            {
+                bool found = false;
+                for (int64_t j = 0; j < K && !found; ++j)
+                {
+                    const auto& o = *O[static_cast<size_t>(j)];
+                    if (o.data() != nullptr && std::less_equal<const tscalar*>{}(o.data(), t.data()) &&
+                        std::less<const tscalar*>{}(t.data(), o.data() + o.size()))
+                    {
+                        out << static_cast<long long>(j) << static_cast<long long>(t.data() - o.data());
+                        found = true;
+                    }
+                }
+                if (!found) out << "?" << 0;
+            }
+        }
+        if (mode != 0)
+        {
+            out << t.size();
+            for (tensor_size_t i = 0; i < t.size(); ++i) out << static_cast<long long>(t(i));
+        }
+    }
+
+    std::string run(int64_t n, toks_t& toks)
+    {
+        out_t out;
+        out << "ok";
+        for (int64_t step = 0; step < n; ++step)
+        {
+            const auto op = toks.s();
+            if (op == "drop")
+            {
+                const auto o = toks.i64();
+                switch (kind(o))
+                {
+                case 0: O[at(o)].reset(); O[at(o)].emplace(); break;
+                case 1: M[at(o)].reset(); M[at(o)].emplace(); break;
+                default: C[at(o)].reset(); C[at(o)].emplace(); break;
+                }
+            }
+            else if (op == "new")
+            {
+                const auto o = toks.i64();
+                const auto d = toks.ints();
+                if (kind(o) != 0 || d.size() != trank) throw bad_op("new");
+                O[at(o)].emplace(to_dims<trank>(d));
+            }
+            else if (op == "fill")
+            {
+                const auto o = toks.i64();
+                const auto v = toks.ints();
+                with(o,
+                     [&](auto& t)
+                     {
+                         using tt = std::remove_reference_t<decltype(t)>;
+                         if constexpr (std::is_same_v<tt, cmap_t>)
+                         {
+                             throw bad_op("write through a constant map");
+                         }
+                         else
+                         {
+                             if (static_cast<tensor_size_t>(v.size()) != t.size()) throw bad_op("fill size");
+                             for (tensor_size_t i = 0; i < t.size(); ++i) t(i) = static_cast<tscalar>(v[static_cast<size_t>(i)]);
+                         }
+                     });
+            }
+            else if (op == "ctor" || op == "mctor")
+            {
+                const auto o = toks.i64();
+                const auto s = toks.i64();
+                ctor(o, s, op == "mctor");
+            }
+            else if (op == "assignid")
+            {
+                // owning = other, and whether the assignment moved the tensor to another allocation
+                const auto o = toks.i64();
+                const auto s = toks.i64();
+                if (kind(o) != 0) throw bad_op("assignid");
+                const auto* before = O[at(o)]->data();
+                assign(o, s, false);
+                out << (O[at(o)]->data() != before ? 1 : 0);
+            }
+            else if (op == "assign" || op == "massign" || op == "assignpre")
+            {
+                const auto o = toks.i64();
+                const auto s = toks.i64();
+                assign(o, s, op == "massign");
+            }
+            else if (op == "resize")
+            {
+                const auto o = toks.i64();
+                const auto d = toks.ints();
+                if (kind(o) != 0 || d.size() != trank) throw bad_op("resize");
+                // alternate between the two overloads (storage.h:81-92)
+                if (step % 2 == 0) O[at(o)]->resize(to_dims<trank>(d));
+                else call_with<trank>([&](auto... i) { O[at(o)]->resize(i...); }, d);
+            }
+            else if (op == "expr")
+            {
+                // objs[o] = <Eigen expression> (tensor.h:207-212 -> assign, 777-800): ranks 1 and 2 only
+                const auto o = toks.i64();
+                const auto d = toks.ints();
+                const auto v = toks.ints();
+                if constexpr (trank <= 2)
+                {
+                    if (d.size() != trank) throw bad_op("expr rank");
+                    const auto assign_to = [&](auto& t)
+                    {
+                        using tt = std::remove_reference_t<decltype(t)>;
+                        if constexpr (std::is_same_v<tt, cmap_t>)
+                        {
+                            throw bad_op("expression assigned to a constant map");
+                        }
+                        else if constexpr (trank == 1)
+                        {
+                            eigen_vector_t<tscalar> e(d[0]);
+                            for (tensor_size_t i = 0; i < e.size(); ++i) e(i) = static_cast<tscalar>(v[static_cast<size_t>(i)]);
+                            if (step % 2 == 0) t = e;
+                            else t = e.array() + tscalar(0);
+                        }
+                        else
+                        {
+                            eigen_matrix_t<tscalar> e(d[0], d[1]);
+                            for (tensor_size_t i = 0; i < e.rows(); ++i)
+                                for (tensor_size_t j = 0; j < e.cols(); ++j)
+                                    e(i, j) = static_cast<tscalar>(v[static_cast<size_t>(i * e.cols() + j)]);
+                            t = e;
+                        }
+                    };
+                    with(o, assign_to);
+                }
+                else
+                {
+                    throw bad_op("expr rank above 2");
+                }
+            }
+            else if (op == "slice")
+            {
+                const auto o = toks.i64();
+                const auto s = toks.i64();
+                const auto c = toks.i64();
+                const auto b = toks.i64();
+                const auto e = toks.i64();
+                if (kind(o) == 0 && o == s) throw bad_op("self construction");
+                with(s,
+                     [&](auto& t)
+                     {
+                         if (c != 0) emplace_view(o, (step % 2 == 0) ? std::as_const(t).slice(b, e) : std::as_const(t).slice(make_range(b, e)));
+                         else emplace_view(o, (step % 2 == 0) ? t.slice(b, e) : t.slice(make_range(b, e)));
+                     });
+            }
+            else if (op == "reshape")
+            {
+                const auto o = toks.i64();
+                const auto s = toks.i64();
+                const auto c = toks.i64();
+                const auto z = toks.ints();
+                if (z.size() != trank) throw bad_op("reshape rank");
+                if (kind(o) == 0 && o == s) throw bad_op("self construction");
+                with(s,
+                     [&](auto& t)
+                     {
+                         if (c != 0) emplace_view(o, call_with<trank>([&](auto... i) { return std::as_const(t).reshape(i...); }, z));
+                         else emplace_view(o, call_with<trank>([&](auto... i) { return t.reshape(i...); }, z));
+                     });
+            }
+            else if (op == "raw")
+            {
+                const auto o   = toks.i64();
+                const auto s   = toks.i64();
+                const auto off = toks.i64();
+                const auto d   = toks.ints();
+                if (d.size() != trank || kind(o) == 0) throw bad_op("raw");
+                with(s,
+                     [&](auto& t)
+                     {
+                         if (kind(o) == 2)
+                         {
+                             const tscalar* ptr = t.data();
+                             emplace_view(o, map_tensor(ptr + off, to_dims<trank>(d)));
+                         }
+                         else
+                         {
+                             emplace_view(o, map_tensor(t.data() + off, to_dims<trank>(d)));
+                         }
+                     });
+            }
+            else if (op == "q")
+            {
+                const auto o    = toks.i64();
+                const auto mode = toks.i64();
+                switch (kind(o))
+                {
+                case 0: print(out, *O[at(o)], mode, true); break;
+                case 1: print(out, *M[at(o)], mode, false); break;
+                default: print(out, *C[at(o)], mode, false); break;
+                }
+            }
+            else
+            {
+                throw bad_op("history op " + op);
+            }
+        }
+        if (!toks.done()) throw bad_op("trailing tokens");
+        return out.str();
+    }
+};
+
+template <size_t trank>
+std::string op_hist(const std::string& ty, int64_t k, int64_t n, toks_t& toks)
+{
+    if (k < 1 || k > 4) throw bad_op("slots");
+    if (ty == "i64") return hist_t<int64_t, trank>(k).run(n, toks);
+    if (ty == "i32") return hist_t<int32_t, trank>(k).run(n, toks);
+    throw bad_op("type");
+}
+
+// ---- remove_if over two tensors, arange, full / zero ------------------------------------------------------------------
+template <size_t trank>
+std::string op_removeifn(const ivec& d, const ivec& mask)
+{
+    auto                     t = make_iota<int32_t, trank>(d);
+    tensor_mem_t<int64_t, 1> v(d[0]);
+    for (tensor_size_t i = 0; i < v.size(); ++i) v(i) = 1000 + i;
+    const auto op   = [&](tensor_size_t i) { return mask[static_cast<size_t>(i)] != 0; };
+    const auto kept = nano::remove_if(op, t, v);
+    out_t      out;
+    out << "ok" << kept;
+    tensor_size_t inner = 1;
+    for (size_t i = 1; i < trank; ++i) inner *= d[i];
+    out << kept * inner;
+    for (tensor_size_t i = 0; i < kept * inner; ++i) out << static_cast<long long>(t(i));
+    out << kept;
+    for (tensor_size_t i = 0; i < kept; ++i) out << static_cast<long long>(v(i));
+    return out.str();
+}
+
+template <size_t trank>
+std::string op_full(const ivec& d, int64_t b, int64_t e, int64_t value)
+{
+    // full(value) / zero() through a slice of a bigger owner: exactly the viewed elements change
+    auto t = make_seq<int64_t, trank>(to_dims<trank>(d));
+    if (value == 0) t.slice(b, e).zero();
+    else t.slice(b, e).full(value);
+    out_t out;
+    out << "ok";
+    print_tensor(out, t);
+    return out.str();
+}
+
 template <class tscalar, size_t trank>
 std::string dispatch_typed(const std::string& op, toks_t& toks, const ivec& d)
 {
@@ -1006,6 +1432,16 @@ std::string dispatch(const std::string& op, toks_t& toks, const ivec& d)
     {
         return op_convert<trank>(d);
     }
+    if (op == "removeifn")
+    {
+        return op_removeifn<trank>(d, toks.ints());
+    }
+    if (op == "full")
+    {
+        const auto b = toks.i64();
+        const auto e = toks.i64();
+        return op_full<trank>(d, b, e, toks.i64());
+    }
     throw bad_op("unknown op " + op);
 }
 } // namespace
@@ -1044,6 +1480,32 @@ std::string vh::execute(toks_t& toks, std::string&)
             bdata.push_back(toks.ints());
         }
         return op_stackmat(rows, cols, bdims, bdata);
+    }
+    if (op == "hist")
+    {
+        const auto rank = toks.i64();
+        const auto ty   = toks.s();
+        const auto k    = toks.i64();
+        const auto n    = toks.i64();
+        switch (rank)
+        {
+        case 1: return op_hist<1>(ty, k, n, toks);
+        case 2: return op_hist<2>(ty, k, n, toks);
+        case 3: return op_hist<3>(ty, k, n, toks);
+        case 4: return op_hist<4>(ty, k, n, toks);
+        case 5: return op_hist<5>(ty, k, n, toks);
+        default: throw bad_op("rank");
+        }
+    }
+    if (op == "arange")
+    {
+        const auto lo = toks.i64();
+        const auto hi = toks.i64();
+        const auto v  = nano::arange(lo, hi);
+        out_t      out;
+        out << "ok" << v.size();
+        for (tensor_size_t i = 0; i < v.size(); ++i) out << static_cast<long long>(v(i));
+        return out.str();
     }
     const auto d = toks.ints();
     switch (d.size())
